@@ -17,6 +17,7 @@ next fiber's rows.  Whether that pattern is present is computed from the raw coo
 batching difference in any other situation gets a different key.
 """
 import itertools
+import random
 
 from fibertree import Fiber, Metrics, Tensor
 from fibertree.model import (Compute, LeaderFollowerIntersector, SkipAheadIntersector,
@@ -47,8 +48,11 @@ SPEC = {
              "(ii) `lf`: real leader-follower intersections, leader trace fed to LeaderFollower. "
              "(iii) `swaps`: canonical tensors of 2..4 ranks, Compute.numSwaps at depth 0..2, radix 2..6 and "
              "infinity, latency 0..4, 7, 100 and 'N' (0 = the boundary: nothing is charged), compared with an "
-             "independent simulation and re-run with "
-             "re-drawn non-zero payloads.  Non-trivial = some fiber has both operands non-empty (isect), leader "
+             "independent simulation and re-run (a) with "
+             "re-drawn non-zero payloads and (b) with the same stored coordinates after the payloads of some - never "
+             "all - elements of each merged list were replaced by default-valued ones (a stored 0; one rank further "
+             "down an empty sub-fiber or a sub-fiber of default-valued payloads only): the charge is per list and "
+             "per STORED element, so run (b) must equal both the simulation and the original run.  Non-trivial = some fiber has both operands non-empty (isect), leader "
              "non-empty (lf), or some merge group holds at least two lists (swaps); distinct = distinct case."),
     "shards": {"quick": 16, "thorough": 16},
     "min_counts": {"quick": {"evaluations": 3000, "oracle_evals": 30000, "model_feeds": 20000,
@@ -58,13 +62,17 @@ SPEC = {
                              "empty_calls_fed": 8000, "empty_first_calls_fed": 2000,
                              "isect_runs_second_operand_other_rank_id": 5000,
                              "isect_runs_second_operand_no_rank_id": 1500,
-                             "numswaps_zero_latency_calls": 500},
+                             "numswaps_zero_latency_calls": 500,
+                             "numswaps_default_payload_calls": 1500, "numswaps_default_payload_elements": 3000,
+                             "numswaps_default_subfiber_calls": 100, "numswaps_N_default_payload_calls": 400},
                    "thorough": {"evaluations": 60000, "oracle_evals": 600000, "model_feeds": 400000,
                                 "multi_fiber_batches_clean": 30000, "numswaps_calls": 20000,
                                 "empty_call_runs": 40000, "empty_first_calls_fed": 40000,
                                 "isect_runs_second_operand_other_rank_id": 50000,
                                 "isect_runs_second_operand_no_rank_id": 15000,
-                                "numswaps_zero_latency_calls": 2000}},
+                                "numswaps_zero_latency_calls": 2000,
+                                "numswaps_default_payload_calls": 10000, "numswaps_default_subfiber_calls": 2000,
+                                "numswaps_N_default_payload_calls": 3000}},
     "assumptions": [
         "coordinate lists of an operand = the coordinates it presents to `&` (stored elements whose payload is "
         "not the default), integer coordinates, ordered/unique fibers",
@@ -85,17 +93,25 @@ SPEC = {
         "presented: elements consumed by the merge including the one left under the finger when the other "
         "operand ran out (reading fixed by test_num_isect_leader_follower); for a real leader-follower "
         "intersection only the leader's count (its non-empty elements) is judged",
-        "numSwaps: canonical tensors (no empty sub-fibers, no explicit default leaves), depth <= ranks-2, radix an "
+        "numSwaps: the lists merged at `depth` are the fibers one rank below; the coordinate list of such a fiber = "
+        "its STORED coordinates (getCoords()), whatever the payloads - 'charged per element, unaffected by payload "
+        "values'.  Original trees are canonical (no empty sub-fibers, no explicit default leaves); the default-valued "
+        "run stores a 0 leaf / an empty or all-default sub-fiber at some coordinates of a merged list.  depth <= "
+        "ranks-2, radix an "
         "int >= 2 or float('inf') (the docstring's radix 'N' raises TypeError in `radix > len(coords)` and is not "
         "driven), latency a non-negative int or 'N' (a stated latency of 0 is a stated latency: 0 per list and per "
         "element, not the unbounded case)",
+        "numSwaps: every merged list is non-empty; all of its elements may be default-valued (such a list was charged "
+        "neither per list nor per element until repository fix cc80d79); a list without any stored "
+        "coordinate is not driven (whether it is still 'a list' to be charged is not stated)",
         "latency 'N': comparison count of inserting each new head into a sorted buffer holding one head per list "
         "= 1 + number of waiting heads with a smaller coordinate (reading fixed by test_num_swaps_undefined_next); "
         "how many waiting heads with an *equal* coordinate are passed is not stated, so with equal coordinates in a "
         "merge group only bounds (min/max over both pop orders x none/ordered/all equals passed) are enforced; the "
         "count is exact on tie-free inputs (exhaustive sweep + 35% of random 'N' cases)",
-        "numSwaps payload independence is judged over non-zero payload values only (a zero leaf changes what the "
-        "tree presents)",
+        "numSwaps payload independence is judged over re-drawn non-zero payload values and over default-valued "
+        "payloads stored at a proper subset of each merged list's coordinates; with tied coordinates and latency 'N' "
+        "the independent count is a pair of bounds but the payload runs must still agree exactly",
     ],
 }
 
@@ -851,6 +867,68 @@ def _revalue(tree, salt):
     return out
 
 
+# (decided: repaired, repository fix cc80d79): on the unchanged tree a list whose EVERY element is default-valued (a lower
+# fiber of stored zeros only / of empty sub-fibers only) is not charged at all - neither per list nor per element -
+# because _numSwapsTree walks the upper fiber with the skipping iterator, while a list with a single non-default
+# element is charged for all its stored coordinates (numSwaps 17 -> 6 for three two-element lists, radix 2,
+# latency 1, when the first list's two payloads are set to 0).  Until that is decided the generator leaves at
+# least one non-default element in every merged list.  Lifted, such inputs report under
+# numSwaps:<latency>:...:list-of-default-valued-elements.
+NUMSWAPS_ALLOW_ALL_DEFAULT_LISTS = True      # fixed in the repository by cc80d79
+
+
+def _is_default_valued(p):
+    """The payload equals the default as fiber iteration sees it: a 0 leaf, or a sub-fiber without any
+    non-default leaf (empty, or holding default-valued payloads only)."""
+    if isinstance(p, list):
+        return all(_is_default_valued(q) for _, q in p)
+    return p == 0
+
+
+def _emptied(p, rng):
+    """A default-valued payload in place of p: 0 for a leaf; for a sub-fiber either an empty sub-fiber or the
+    same coordinates with every payload default-valued in turn."""
+    if not isinstance(p, list):
+        return 0
+    if rng.random() < 0.5:
+        return []
+    return [[c, _emptied(q, rng)] for c, q in p]
+
+
+def _with_defaults(tree, depth, rng, level=0):
+    """The same stored coordinates at every rank down to the merged lists (the fibers at depth + 1), with the
+    payloads of some elements of each list replaced by default-valued ones.  A list of two or more elements
+    gets at least one; (guard) every list keeps at least one non-default element."""
+    if level <= depth:
+        return [[c, _with_defaults(sub, depth, rng, level + 1)] for c, sub in tree]
+    n = len(tree)
+    pick = [rng.random() < 0.45 for _ in range(n)]
+    if n >= 2 and not any(pick):
+        pick[rng.randrange(n)] = True
+    if n and all(pick) and not NUMSWAPS_ALLOW_ALL_DEFAULT_LISTS:
+        pick[rng.randrange(n)] = False
+    return [[c, _emptied(p, rng) if k else p] for (c, p), k in zip(tree, pick)]
+
+
+def _default_census(tree, depth, level=0):
+    """-> (default-valued leaves, default-valued sub-fibers, some list is default-valued throughout) over the
+    elements of the merged lists."""
+    n_leaf = n_sub = 0
+    all_dfl = False
+    if level <= depth:
+        for _, sub in tree:
+            a, b, c = _default_census(sub, depth, level + 1)
+            n_leaf, n_sub, all_dfl = n_leaf + a, n_sub + b, all_dfl or c
+        return n_leaf, n_sub, all_dfl
+    for _, p in tree:
+        if _is_default_valued(p):
+            if isinstance(p, list):
+                n_sub += 1
+            else:
+                n_leaf += 1
+    return n_leaf, n_sub, bool(tree) and n_leaf + n_sub == len(tree)
+
+
 def _run_swaps(case, mon):
     tree = case["tree"]
     depth = case["depth"]
@@ -875,13 +953,20 @@ def _run_swaps(case, mon):
         lo = hi = sum(swaps_oracle(g, radix, lat)[0] for g in groups)
     rk = "N" if lat == "N" else "finite"
     what = f"numSwaps(depth={depth}, radix={radix}, latency={lat!r}) over lists {groups}"
-    vals = []
-    for variant, spec in (("orig", tree), ("revalued", _revalue(tree, case.get("reval", 1)))):
+    dfl_tree = _with_defaults(tree, depth, random.Random(case.get("reval", 1) * 7919 + depth))
+    assert _lists_at(dfl_tree, depth) == groups         # same stored coordinates: same lists, same charge
+    n_leaf, n_sub, all_dfl = _default_census(dfl_tree, depth)
+    vals = {}
+    for variant, spec in (("orig", tree), ("revalued", _revalue(tree, case.get("reval", 1))), ("defaults", dfl_tree)):
+        # clause suffix of the keys: the run over stored default-valued payloads is told apart; a list whose EVERY
+        # element is default-valued (only driven when the guard above is lifted) gets its own class
+        sfx = "" if variant != "defaults" else (":list-of-default-valued-elements" if all_dfl else ":default-valued-payloads")
         try:
             t = gen.tensor_from_spec(spec, ["M", "K", "N", "P", "Q"][:nranks])
             got = Compute.numSwaps(t, depth, float("inf") if radix == "inf" else radix, lat)
         except BaseException as e:      # noqa
-            mon.violation(f"numSwaps:{rk}-latency:raised:{type(e).__name__}", f"{what} raised {type(e).__name__}: {e}")
+            mon.violation(f"numSwaps:{rk}-latency:raised:{type(e).__name__}{sfx}", f"{what} raised {type(e).__name__}: {e}"
+                          + (f" (payloads {dfl_tree})" if sfx else ""))
             return
         mon.count("numswaps_calls")
         if lat == "N":
@@ -890,17 +975,29 @@ def _run_swaps(case, mon):
                 mon.count("numswaps_N_tiefree_calls")
         elif lat == 0:
             mon.count("numswaps_zero_latency_calls")
-        vals.append(got)
-        if variant == "orig":
+        if variant == "defaults" and n_leaf + n_sub:
+            mon.count("numswaps_default_payload_calls")
+            mon.count("numswaps_default_payload_elements", n_leaf + n_sub)
+            if n_sub:
+                mon.count("numswaps_default_subfiber_calls")
+            if lat == "N":
+                mon.count("numswaps_N_default_payload_calls")
+        vals[variant] = got
+        if variant != "revalued":
+            tail = f" (stored payloads, default-valued ones included: {dfl_tree})" if sfx else ""
             if lo == hi:
-                mon.check(got == lo, f"numSwaps:{rk}-latency:total",
-                          f"{what}: library reports {got}, independent round-by-round simulation gives {lo}")
+                mon.check(got == lo, f"numSwaps:{rk}-latency:total{sfx}",
+                          f"{what}: library reports {got}, independent round-by-round simulation gives {lo}{tail}")
             else:
-                mon.check(lo <= got <= hi, "numSwaps:N-latency:total:outside-tie-bounds",
+                mon.check(lo <= got <= hi, f"numSwaps:N-latency:total:outside-tie-bounds{sfx}",
                           f"{what}: library reports {got}; the insertion-comparison count lies in [{lo}, {hi}] whatever "
-                          f"the order among equal coordinates")
-    mon.check(vals[0] == vals[1], f"numSwaps:{rk}-latency:payload-dependence",
-              f"{what}: {vals[0]} with the original payloads, {vals[1]} after re-drawing the (non-zero) payload values")
+                          f"the order among equal coordinates{tail}")
+    mon.check(vals["orig"] == vals["revalued"], f"numSwaps:{rk}-latency:payload-dependence",
+              f"{what}: {vals['orig']} with the original payloads, {vals['revalued']} after re-drawing the (non-zero) payload values")
+    mon.check(vals["orig"] == vals["defaults"], f"numSwaps:{rk}-latency:payload-dependence"
+              + (":list-of-default-valued-elements" if all_dfl else ":default-valued-payloads"),
+              f"{what}: {vals['orig']} with the original payloads, {vals['defaults']} with the same stored coordinates after "
+              f"some payloads were replaced by default-valued ones (a stored 0, an empty or all-default sub-fiber): {dfl_tree}")
     if any(len(g) >= 2 for g in groups):
         mon.nontrivial()
     mon.state(("swaps", lo, hi, depth, str(radix), str(lat)))
